@@ -171,3 +171,8 @@ package surveyor
 //@   ensures result.Self == 98 && result.Peer == 99 && result.SelfName == "surveyor" && result.PeerName == "respondent"
 //@
 // ---- end generated Info contracts ----
+
+// ---- round 10: every pipe is offered the survey (a non-blocking send on its queue is reached) ----
+//@ func (*context).SendMsg
+//@   loop 2 ensures called_since("loop2:head", "Clone") && sel("select#1") != -2
+//@   before select#1 assert selsends(p.sendQ)
